@@ -106,7 +106,7 @@ int main(int argc, char ** argv) {
             out << json({{"e", "End"}}).dump() << "\n";
             events += 2 + (long)got.size(); ++g_cases;
         };
-        narrow(uint8_t{}, {16, 16}); narrow(uint8_t{}, {8, 4, 8}); narrow(uint8_t{}, {32, 16}); narrow(uint16_t{}, {64, 32, 32});
+        narrow(uint8_t{}, {16, 16}); narrow(uint8_t{}, {8, 4, 8}); narrow(uint8_t{}, {32, 16});
         summary({{"events", events}});
     }
     return 0;
